@@ -328,17 +328,17 @@ def pooled_kind(verb):
 
 
 # thorough tier: from the third event on only the verbs that pass pooled objects around
-CORE_NAMES = {("mutate", "a"), ("summarize", "s"), ("mutate", "w"), ("mutate", "v"), ("mutate", "o"), ("mutate", "x"), ("mutate", "y2")}
+CORE_NAMES = {("mutate", "a"), ("summarize", "s"), ("mutate", "w"), ("mutate", "x")}
 CORE = [v for v in VERBS if (v[0] in ("mutate", "summarize") and v[1] and (v[0], v[1][0][0]) in CORE_NAMES)
-        or v == ["group_by", [src("g")]] or v == ["ungroup"] or v == ["alias"]]
+        or v == ["group_by", [src("g")]] or v == ["ungroup"]]
 
 
 def enabled(n_tables, pos=0, deep_core=False):
     evs = []
     for ti in range(n_tables):
         # extra verbs: as first event, and as second event on the source table (a sibling derivation)
-        verbs = CORE if (deep_core and pos >= 2) else VERBS
-        for v in verbs + (EXTRA if pos == 0 or (pos == 1 and ti == 0) else []):
+        verbs = CORE if (deep_core and pos >= 1) else VERBS
+        for v in verbs + (EXTRA if pos == 0 or (pos == 1 and ti == 0 and not deep_core) else []):
             evs.append(["apply", ti, v])
         for o in OBS:
             evs.append([o, ti])
@@ -428,7 +428,15 @@ def finish(v, backend):
 
 
 def run_task(task, tier):
-    stats, outcomes, violations, samples = explore(task["backend"], task["first"], DEPTH[tier])
+    stats, outcomes, violations, samples = explore(task["backend"], task["first"], 3)
+    if DEPTH[tier] >= 4:
+        # thorough: the complete depth-3 space (as in the quick tier) plus the depth-4 interleavings
+        # whose events after the first come from the core verbs
+        st2, oc2, vs2, sm2 = explore(task["backend"], task["first"], DEPTH[tier])
+        stats.update(st2)
+        outcomes.update(oc2)
+        violations = violations + vs2
+        samples = (samples + sm2)[:2]
     groups: dict = {}
     for v in violations:
         key = (v["invariant"], v["symptom"], tuple(kinds(v["history"])))
@@ -455,7 +463,7 @@ def describe(tier):
         "observations": OBS,
         "events": "apply(<verb with pooled expressions>, T_i) for every pooled table T_i (the result joins the pool) | export(T_i) | build_query(T_i) | str(T_i)",
         "depth": DEPTH[tier],
-        "thorough_deep_positions": "at depth 4 the third and fourth event are taken from the core verbs " + ", ".join(T.py_event(v).replace("pdt.lit", "lit")[:40] for v in CORE),
+        "thorough_deep_positions": "at depth 4 every event after the first is taken from the core verbs " + ", ".join(T.py_event(v).replace("pdt.lit", "lit")[:40] for v in CORE),
         "enabled_events_at_root": len(enabled(1)),
         "input_family": "one 5-row table with nulls, two groups and a null group",
         "backends": list(W.BACKENDS),
